@@ -11,12 +11,15 @@ SInt.__format__ = lambda s, spec: "sym"
 # shim math in module under test
 class MathShim:
     @staticmethod
-    def gcd(a, b):
-        # Euclid on symbolic ints (forks)
-        a = abs(a); b = abs(b)
-        while b != 0:
-            a, b = b, a % b
-        return a
+    def gcd(*args):
+        # Euclid on symbolic ints (forks); variadic like math.gcd
+        from functools import reduce
+        def g2(a, b):
+            a = abs(a); b = abs(b)
+            while b != 0:
+                a, b = b, a % b
+            return a
+        return reduce(g2, args, 0)
     @staticmethod
     def log2(v): raise RuntimeError("log2 concretise")
     def __getattr__(self, k):
